@@ -18,7 +18,7 @@ def sh(cmd, cwd=None, timeout=1500):
 
 def main():
     pid = sys.argv[1]
-    src = "/tmp/ref-%s-out" % pid
+    src = os.environ.get("REF_SRC", "/tmp/ref-%s-out") % pid
     ns = sys.argv[2:] or sorted(d for d in os.listdir(src) if os.path.isdir(os.path.join(src, d)))
     for n in ns:
         d = os.path.join(src, n)
